@@ -188,6 +188,8 @@ inst!(c20_dna_revcomp_n1, 258, dna_revcomp::<1>());
 inst!(c20_dna_revcomp_n3, 258, dna_revcomp::<3>());
 inst!(c20_rna_revcomp_n3, 258, rna_revcomp::<3>());
 inst!(c20_dna_revcomp_n4, 258, dna_revcomp::<4>());
+inst!(c20_dna_revcomp_n6, 258, dna_revcomp::<6>());
+inst!(c20_rna_revcomp_n5, 258, rna_revcomp::<5>());
 inst!(c20_alphabet_c4_t3, 90, alphabet_ranks::<4, 3>([b'A', b'C', b'G', b'T']));
 inst!(c20_alphabet_c5_t2, 260, alphabet_ranks::<5, 2>([0u8, b'$', b'A', b'a', 255u8]));
 inst!(c20_alphabet_c3_t2, 260, alphabet_ranks::<3, 2>([31u8, 32u8, 255u8]));
@@ -195,5 +197,8 @@ inst!(c20_gc_n1, 10, gc::<1>());
 inst!(c20_gc_n4, 10, gc::<4>());
 inst!(c20_gc_n6, 10, gc::<6>());
 inst!(c20_gc_n7, 10, gc::<7>());
+inst!(c20_gc_n9, 12, gc::<9>());
+inst!(c20_gc_n12, 15, gc::<12>());
+inst!(c20_gc_n24, 27, gc::<24>());
 inst!(c20_alphabet_small_c4_t3, 20, alphabet_ranks::<4, 3>([0u8, 1u8, 2u8, 5u8]));
 inst!(c20_alphabet_block_c4_t2, 70, alphabet_ranks::<4, 2>([0u8, 31u8, 32u8, 63u8]));
